@@ -153,7 +153,7 @@ var upIPs = []string{"192.0.2.1", "192.0.2.2", "192.0.2.3"}
 var upIP6s = []string{"2001:db8::1", "2001:db8::2"}
 var rwIP4 = []string{"203.0.113.1", "203.0.113.2", "192.0.2.1"}
 var rwIP6 = []string{"2001:db8:ffff::1", "2001:db8:ffff::2"}
-var qtypes = []uint16{1, 1, 1, 28, 28, 16, 65, 65, 15, 5, 12, 33, 64}
+var qtypes = []uint16{1, 1, 1, 28, 28, 16, 65, 65, 15, 5, 12, 33, 64, 2, 6, 255, 257, 99}
 var selPool = []string{"*", "*", "*", "=1", "=28", "~1", "=16", "~28"}
 
 // otherRewrites are $dnsrewrite values of the remaining record types, in the
@@ -263,6 +263,9 @@ type upRR struct {
 	typ uint16
 	val string
 	ttl uint32
+	// wire is how the upstream spells the target of a CNAME (letter case is
+	// kept on the wire and has no meaning); "" = as val.
+	wire string
 	// HTTPS: hint addresses, each parameter one slice, in record order.
 	v4hint, v6hint []string
 	hintsFirst6    bool
@@ -298,11 +301,37 @@ type upAns struct {
 	rcode int
 	rrs   []upRR
 	ns    int
+	// extra is the number of records (glue addresses, a TXT) in the additional
+	// section of the upstream reply.
+	extra int
+}
+
+// target is the CNAME target as the upstream spells it.
+func (rr upRR) target() string {
+	if rr.wire != "" {
+		return rr.wire
+	}
+	return rr.val
+}
+
+// cnameRR draws a CNAME record whose target is, now and then, spelled in mixed
+// or upper case.
+func cnameRR(rng *rand.Rand) upRR {
+	rr := upRR{typ: 5, val: pick(rng, targetPool), ttl: 7777}
+	switch rng.IntN(5) {
+	case 0:
+		rr.wire = mixCase(rng, rr.val)
+	case 1:
+		rr.wire = strings.ToUpper(rr.val)
+	}
+	return rr
 }
 
 type modeT struct {
 	kind string // null nx ref cip none (none = a nil BlockingMode)
-	ttl  int
+	// ttl is the configured FilteredResponseTTL in milliseconds: a duration,
+	// not a number of seconds.
+	ttl int
 	v4   []string
 	v6   []string
 }
@@ -327,6 +356,13 @@ func (m modeT) build() dnsmsg.BlockingMode {
 	}
 	return c
 }
+
+// dur is the configured duration.
+func (m modeT) dur() time.Duration { return time.Duration(m.ttl) * time.Millisecond }
+
+// secs is "that profile's TTL" as a DNS record can carry it: the whole seconds
+// of the configured duration.
+func (m modeT) secs() int { return m.ttl / 1000 }
 
 func (m modeT) wf() bool {
 	for _, s := range m.v4 {
@@ -358,11 +394,11 @@ func (m modeT) srvLine() string {
 }
 
 func genMode(rng *rand.Rand, allowIllFormed bool) modeT {
-	m := modeT{kind: pick(rng, []string{"null", "nx", "ref", "cip", "cip"}), ttl: pick(rng, []int{10, 30, 3600, 0, 1})}
+	m := modeT{kind: pick(rng, []string{"null", "nx", "ref", "cip", "cip"}), ttl: pick(rng, []int{10000, 30000, 3600000, 0, 1000, 1500, 999, 2999, 59999, 10001})}
 	if allowIllFormed && rng.IntN(14) == 0 {
 		// A negative TTL: no constructor can be made for the profile, the
 		// server's stays in place.
-		m.ttl = -5
+		m.ttl = pick(rng, []int{-5000, -1})
 	}
 	if allowIllFormed && rng.IntN(14) == 0 {
 		// No blocking mode at all: the other way NewConstructor fails.
@@ -744,7 +780,7 @@ func genUniverse(rng *rand.Rand) *universe {
 				a.ns = rng.IntN(2)
 			case qt == 1:
 				if rng.IntN(3) == 0 {
-					a.rrs = append(a.rrs, upRR{typ: 5, val: pick(rng, targetPool), ttl: 7777})
+					a.rrs = append(a.rrs, cnameRR(rng))
 				}
 				for i := 1 + rng.IntN(2); i > 0; i-- {
 					a.rrs = append(a.rrs, upRR{typ: 1, val: pick(rng, upIPs), ttl: 7777})
@@ -753,7 +789,7 @@ func genUniverse(rng *rand.Rand) *universe {
 				a.rrs = append(a.rrs, upRR{typ: 28, val: pick(rng, upIP6s), ttl: 7777})
 			case qt == 65:
 				if rng.IntN(4) == 0 {
-					a.rrs = append(a.rrs, upRR{typ: 5, val: pick(rng, targetPool), ttl: 7777})
+					a.rrs = append(a.rrs, cnameRR(rng))
 				}
 				for i := 1 + rng.IntN(2); i > 0; i-- {
 					rr := upRR{typ: 65, ttl: 7777, hintsFirst6: rng.IntN(3) == 0}
@@ -767,6 +803,9 @@ func genUniverse(rng *rand.Rand) *universe {
 				}
 			default:
 				a.rrs = append(a.rrs, upRR{typ: 16, val: "txt-" + strings.ReplaceAll(h, ".", "-"), ttl: 7777})
+			}
+			if rng.IntN(3) == 0 {
+				a.extra = 1 + rng.IntN(2)
 			}
 			u.up[upKey(h, qt)] = a
 		}
@@ -850,9 +889,13 @@ func (u *universe) modelLines() []string {
 				rrs = append(rrs, fmt.Sprintf("65/%s/%d/%s", rrVal(h), rr.ttl, semiOrDash(hintsOf(h))))
 				continue
 			}
+			if rr.typ == 5 {
+				rrs = append(rrs, fmt.Sprintf("5/%s/%d", rr.target(), rr.ttl))
+				continue
+			}
 			rrs = append(rrs, fmt.Sprintf("%d/%s/%d", rr.typ, rr.val, rr.ttl))
 		}
-		ls = append(ls, fmt.Sprintf("up %s %s %d %s %d", parts[0], parts[1], a.rcode, orDash(rrs), a.ns))
+		ls = append(ls, fmt.Sprintf("up %s %s %d %s %d %d", parts[0], parts[1], a.rcode, orDash(rrs), a.ns, a.extra))
 	}
 	ls = append(ls, u.grp.timeLines()...)
 	ls = append(ls, u.grp.line("g", "-"), u.gmode.srvLine())
@@ -981,7 +1024,7 @@ func (u *universe) build(rng *rand.Rand) {
 	}
 
 	msgs, err := dnsmsg.NewConstructor(&dnsmsg.ConstructorConfig{Cloner: cloner, BlockingMode: u.gmode.build(),
-		StructuredErrors: agdtest.NewSDEConfig(true), FilteredResponseTTL: time.Duration(u.gmode.ttl) * time.Second, EDEEnabled: true})
+		StructuredErrors: agdtest.NewSDEConfig(true), FilteredResponseTTL: u.gmode.dur(), EDEEnabled: true})
 	hlib.Must(err)
 	pdb := stack.NotFoundProfileDB()
 	pdb.OnProfileByLinkedIP = func(_ context.Context, ip netip.Addr) (*agd.Profile, *agd.Device, error) {
@@ -1036,7 +1079,7 @@ func (u *universe) upstreamReply(req *dns.Msg) *dns.Msg {
 		case 28:
 			resp.Answer = append(resp.Answer, &dns.AAAA{Hdr: h, AAAA: net.ParseIP(rr.val)})
 		case 5:
-			resp.Answer = append(resp.Answer, &dns.CNAME{Hdr: h, Target: dns.Fqdn(rr.val)})
+			resp.Answer = append(resp.Answer, &dns.CNAME{Hdr: h, Target: dns.Fqdn(rr.target())})
 		case 16:
 			resp.Answer = append(resp.Answer, &dns.TXT{Hdr: h, Txt: []string{rr.val}})
 		case 65:
@@ -1046,6 +1089,15 @@ func (u *universe) upstreamReply(req *dns.Msg) *dns.Msg {
 	for i := 0; i < a.ns; i++ {
 		resp.Ns = append(resp.Ns, &dns.SOA{Hdr: dns.RR_Header{Name: q.Name, Rrtype: dns.TypeSOA, Class: dns.ClassINET, Ttl: 7777},
 			Ns: "ns.upstream.test.", Mbox: "m.upstream.test.", Serial: 1})
+	}
+	for i := 0; i < a.extra; i++ {
+		h := dns.RR_Header{Name: "ns.upstream.test.", Rrtype: dns.TypeA, Class: dns.ClassINET, Ttl: 7777}
+		if i == 0 {
+			resp.Extra = append(resp.Extra, &dns.A{Hdr: h, A: net.ParseIP("198.18.0.53").To4()})
+		} else {
+			h.Rrtype = dns.TypeTXT
+			resp.Extra = append(resp.Extra, &dns.TXT{Hdr: h, Txt: []string{"upstream-additional"}})
+		}
 	}
 	return resp
 }
@@ -1144,8 +1196,11 @@ func semiOrDash(xs []string) string {
 // ansTok renders one answer record for a model "resp" line.
 func ansTok(rr dns.RR) string {
 	switch v := rr.(type) {
-	case *dns.A, *dns.AAAA, *dns.CNAME:
+	case *dns.A, *dns.AAAA:
 		return fmt.Sprintf("%d/%s", rr.Header().Rrtype, rrVal(rr))
+	case *dns.CNAME:
+		// The target as it is spelled in the record.
+		return "5/" + strings.TrimSuffix(v.Target, ".")
 	case *dns.HTTPS:
 		return "65/" + semiOrDash(hintsOf(v))
 	}
@@ -1264,12 +1319,71 @@ func msgString(m *dns.Msg, up *dns.Msg) string {
 	if len(ans) > 0 {
 		a = strings.Join(ans, ",")
 	}
-	return fmt.Sprintf("%d %s %s %d", m.Rcode, a, soa, upNs)
+	// Records of the additional section other than the OPT pseudo-record: the
+	// server synthesises none, so every one of them was obtained elsewhere.
+	upExtra := 0
+	for _, rr := range m.Extra {
+		if rr.Header().Rrtype != dns.TypeOPT && !isDebugRR(rr) {
+			upExtra++
+		}
+	}
+	return fmt.Sprintf("%d %s %s %d %d", m.Rcode, a, soa, upNs, upExtra)
+}
+
+const debugDomain = ".adguard-dns.com."
+
+// isDebugRR reports whether rr is one of the CHAOS-class TXT records the main
+// middleware appends to the answer of a debug (CHAOS-class) query.
+func isDebugRR(rr dns.RR) bool {
+	h := rr.Header()
+	return h.Rrtype == dns.TypeTXT && h.Class == dns.ClassCHAOS && strings.HasSuffix(h.Name, debugDomain)
+}
+
+// debugVerdict reads the verdict the middleware reports in the answer to a
+// debug query: "<stage> <state> <list>", stage = req or resp (which verdict was
+// reported), state = normal, allowed, blocked or modified.
+func debugVerdict(m *dns.Msg) string {
+	if m == nil {
+		return "nil"
+	}
+	kv := map[string]string{}
+	for _, rr := range m.Extra {
+		if !isDebugRR(rr) {
+			continue
+		}
+		kv[strings.TrimSuffix(rr.Header().Name, debugDomain)] = strings.Join(rr.(*dns.TXT).Txt, "")
+	}
+	for _, stage := range []string{"req", "resp"} {
+		state, ok := kv[stage+".res-type"]
+		if !ok {
+			continue
+		}
+		if state == "normal" {
+			return stage + " normal -"
+		}
+		return stage + " " + state + " " + shortID(filter.ID(kv[stage+".rule-list-id"]), filter.RuleText(kv[stage+".rule"]))
+	}
+	return "none"
+}
+
+// verdictState maps a verdict string of the composite filter to the state and
+// list a debug answer reports for it.
+func verdictState(v string) string {
+	f := strings.Fields(v)
+	switch f[0] {
+	case "none":
+		return "normal -"
+	case "allow":
+		return "allowed " + f[1]
+	case "block":
+		return "blocked " + f[1]
+	}
+	return "modified " + f[1]
 }
 
 func normMsg1(s string) string {
 	f := strings.Fields(s)
-	if len(f) == 4 && f[1] != "-" {
+	if len(f) == 5 && f[1] != "-" {
 		// Synthesised values of a rewrite are unordered (engine match order).
 		parts := strings.Split(f[1], ",")
 		allSynthSameType := true
@@ -1614,11 +1728,11 @@ func expectBlockedShape(m modeT, host string, qt uint16) string {
 	ip := func(typ int, vals []string) string {
 		var b []string
 		for _, v := range vals {
-			b = append(b, fmt.Sprintf("%d:%s:%s:%d:s", typ, host, v, m.ttl))
+			b = append(b, fmt.Sprintf("%d:%s:%s:%d:s", typ, host, v, m.secs()))
 		}
-		return "0 " + strings.Join(b, ",") + " - 0"
+		return "0 " + strings.Join(b, ",") + " - 0 0"
 	}
-	nodata := fmt.Sprintf("0 - %d 0", m.ttl)
+	nodata := fmt.Sprintf("0 - %d 0 0", m.secs())
 	switch m.kind {
 	case "null":
 		if qt == 1 {
@@ -1628,9 +1742,9 @@ func expectBlockedShape(m modeT, host string, qt uint16) string {
 		}
 		return nodata
 	case "nx":
-		return fmt.Sprintf("3 - %d 0", m.ttl)
+		return fmt.Sprintf("3 - %d 0 0", m.secs())
 	case "ref":
-		return fmt.Sprintf("5 - %d 0", m.ttl)
+		return fmt.Sprintf("5 - %d 0 0", m.secs())
 	}
 	if qt == 1 && len(m.v4) > 0 {
 		return ip(1, m.v4)
@@ -1645,20 +1759,20 @@ func expectBlockedShape(m modeT, host string, qt uint16) string {
 // the requester's blocked shape for HTTPS, NODATA otherwise; all with the
 // requester's TTL.
 func expectBlockPage(m modeT, host string, qt uint16, ip netip.Addr) string {
-	nodata := fmt.Sprintf("0 - %d 0", m.ttl)
+	nodata := fmt.Sprintf("0 - %d 0 0", m.secs())
 	switch {
 	case qt == 65:
 		switch m.kind {
 		case "nx":
-			return fmt.Sprintf("3 - %d 0", m.ttl)
+			return fmt.Sprintf("3 - %d 0 0", m.secs())
 		case "ref":
-			return fmt.Sprintf("5 - %d 0", m.ttl)
+			return fmt.Sprintf("5 - %d 0 0", m.secs())
 		}
 		return nodata
 	case qt == 1 && ip.Is4():
-		return fmt.Sprintf("0 1:%s:%s:%d:s - 0", host, ip, m.ttl)
+		return fmt.Sprintf("0 1:%s:%s:%d:s - 0 0", host, ip, m.secs())
 	case qt == 28 && ip.Is6():
-		return fmt.Sprintf("0 28:%s:%s:%d:s - 0", host, ip, m.ttl)
+		return fmt.Sprintf("0 28:%s:%s:%d:s - 0 0", host, ip, m.secs())
 	}
 	return nodata
 }
@@ -1667,7 +1781,11 @@ func expectBlockPage(m modeT, host string, qt uint16, ip netip.Addr) string {
 // response, independently of the model: per record (address or CNAME target)
 // an allow rule of any source beats every block rule, a block or hosts rule
 // blocks; the first record with a verdict decides; rewrites never apply.
-func (u *universe) expectResp(c cfgT, answers []dns.RR) expectation {
+//
+// Names are compared without regard to letter case (fold = true).  With fold =
+// false the CNAME targets are taken in their wire spelling: what a
+// case-sensitive implementation would do; used only to name that defect.
+func (u *universe) expectResp(c cfgT, answers []dns.RR, fold bool) expectation {
 	_, all := u.sources(c)
 	// Every name or address the documented response filtering looks at, with
 	// the record type it is matched under: addresses and CNAME targets under
@@ -1679,8 +1797,14 @@ func (u *universe) expectResp(c cfgT, answers []dns.RR) expectation {
 	var items []item
 	for _, rr := range answers {
 		switch v := rr.(type) {
-		case *dns.A, *dns.AAAA, *dns.CNAME:
+		case *dns.A, *dns.AAAA:
 			items = append(items, item{rrVal(rr), rr.Header().Rrtype})
+		case *dns.CNAME:
+			if fold {
+				items = append(items, item{rrVal(rr), dns.TypeCNAME})
+			} else {
+				items = append(items, item{strings.TrimSuffix(v.Target, "."), dns.TypeCNAME})
+			}
 		case *dns.HTTPS:
 			for _, h := range hintsOf(v) {
 				items = append(items, item{h, 65})
@@ -1721,6 +1845,11 @@ type query struct {
 	host string // normalised
 	qt   uint16
 	wire string // as spelled in the question (0x20-style mixed case)
+	// edns: 0 = a plain request, 1 = with an OPT record, 2 = with the DO bit.
+	edns int
+	// debug: the question is asked once more in the CHAOS class, which makes
+	// the main middleware append what it decided to the (same) answer.
+	debug bool
 }
 
 func mixCase(rng *rand.Rand, s string) string {
@@ -1748,6 +1877,10 @@ func genQueries(rng *rand.Rand, n int) []query {
 		if rng.IntN(6) == 0 {
 			q.wire = mixCase(rng, q.host)
 		}
+		if rng.IntN(3) == 0 {
+			q.edns = 1 + rng.IntN(2)
+		}
+		q.debug = rng.IntN(4) == 0
 		qs = append(qs, q)
 	}
 	return qs
@@ -1870,7 +2003,7 @@ func runUniverse(o *hlib.Opts, r *hlib.Result, m *hlib.Model, rng *rand.Rand, nC
 		}
 		clines = append(clines, fmt.Sprintf("sw %s %s %s", b01(sw[0]), b01(sw[1]), b01(sw[2])))
 		msgs, err := dnsmsg.NewConstructor(&dnsmsg.ConstructorConfig{Cloner: cloner, BlockingMode: mode.build(),
-			StructuredErrors: agdtest.NewSDEConfig(true), FilteredResponseTTL: time.Duration(mode.ttl) * time.Second, EDEEnabled: true})
+			StructuredErrors: agdtest.NewSDEConfig(true), FilteredResponseTTL: mode.dur(), EDEEnabled: true})
 		hlib.Must(err)
 
 		remote := netip.AddrFrom4([4]byte{10, 9, byte(ci >> 8), byte(ci)})
@@ -1878,7 +2011,7 @@ func runUniverse(o *hlib.Opts, r *hlib.Result, m *hlib.Model, rng *rand.Rand, nC
 			dev := &agd.Device{Auth: &agd.AuthSettings{PasswordHash: agdpasswd.AllowAuthenticator{}}, ID: agd.DeviceID("dev" + strconv.Itoa(profSeq)),
 				LinkedIP: remote, FilteringEnabled: sw[2]}
 			prof := &agd.Profile{FilterConfig: u.clientConfig(c, profID), Access: access.EmptyProfile{}, BlockingMode: profMode.build(), Ratelimiter: agd.GlobalRatelimiter{},
-				ID: agd.ProfileID(profID), DeviceIDs: []agd.DeviceID{dev.ID}, FilteredResponseTTL: time.Duration(profMode.ttl) * time.Second,
+				ID: agd.ProfileID(profID), DeviceIDs: []agd.DeviceID{dev.ID}, FilteredResponseTTL: profMode.dur(),
 				FilteringEnabled: sw[1], QueryLogEnabled: true}
 			u.profMu.Lock()
 			u.profs[remote] = &profEntry{prof, dev}
@@ -1897,6 +2030,9 @@ func runUniverse(o *hlib.Opts, r *hlib.Result, m *hlib.Model, rng *rand.Rand, nC
 			upReply     *dns.Msg
 			upName      string
 			ansLine     string
+			// for resp: what a case-sensitive reading of the CNAME targets
+			// would give
+			expCS expectation
 		}
 		var observed []obs
 		for _, q := range qs {
@@ -1922,11 +2058,17 @@ func runUniverse(o *hlib.Opts, r *hlib.Result, m *hlib.Model, rng *rand.Rand, nC
 				respV = "error " + perr.Error()
 			}
 			ops = append(ops, fmt.Sprintf("resp %s %s", which, orDash(ansToks)))
-			observed = append(observed, obs{kind: "resp", real: respV, q: q, ansLine: orDash(ansToks), exp: u.expectResp(eff, upMsg.Answer)})
+			observed = append(observed, obs{kind: "resp", real: respV, q: q, ansLine: orDash(ansToks), exp: u.expectResp(eff, upMsg.Answer, true),
+				expCS: u.expectResp(eff, upMsg.Answer, false)})
 
 			// (b) the whole middleware stack.
 			u.lastUp = nil
-			out := u.st.Serve(ctx, &stack.Req{Server: u.st.Servers[0], Msg: newReq(q.wire, q.qt),
+			mwReq := newReq(q.wire, q.qt)
+			if q.edns > 0 {
+				mwReq.SetEdns0(1232, q.edns == 2)
+				r.Count("query-with-edns")
+			}
+			out := u.st.Serve(ctx, &stack.Req{Server: u.st.Servers[0], Msg: mwReq,
 				Remote: netip.AddrPortFrom(remote, 5353), Local: netip.MustParseAddrPort("192.0.2.2:53")})
 			real := msgString(out.Resp, u.lastUp)
 			if out.Err != nil {
@@ -1937,6 +2079,22 @@ func runUniverse(o *hlib.Opts, r *hlib.Result, m *hlib.Model, rng *rand.Rand, nC
 				r.Count("query-mixed-case")
 			}
 			observed = append(observed, obs{kind: "mw", real: real, q: q, reqV: reqV, respV: respV, upReply: u.lastUp, upName: u.upName})
+
+			// (c) the same question in the CHAOS class: the answer must be the
+			// same, plus the report of the verdict.
+			if q.debug {
+				u.lastUp = nil
+				dbgReq := newReq(q.wire, q.qt)
+				dbgReq.Question[0].Qclass = dns.ClassCHAOS
+				dout := u.st.Serve(ctx, &stack.Req{Server: u.st.Servers[0], Msg: dbgReq,
+					Remote: netip.AddrPortFrom(remote, 5353), Local: netip.MustParseAddrPort("192.0.2.2:53")})
+				dreal := msgString(dout.Resp, u.lastUp) + " | " + debugVerdict(dout.Resp)
+				if dout.Err != nil {
+					dreal = "error " + dout.Err.Error()
+				}
+				ops = append(ops, fmt.Sprintf("dbg %s %d", q.wire, q.qt))
+				observed = append(observed, obs{kind: "dbg", real: dreal, q: q, reqV: reqV, respV: respV, upReply: u.lastUp, upName: u.upName})
+			}
 		}
 
 		lines := append(append(append([]string{}, ulines...), clines...), ops...)
@@ -1982,11 +2140,21 @@ func runUniverse(o *hlib.Opts, r *hlib.Result, m *hlib.Model, rng *rand.Rand, nC
 				if strings.Contains(ob.ansLine, "65/") {
 					r.Count("resp-https-answer-" + strings.Fields(ob.real)[0])
 				}
+				if ob.ansLine != strings.ToLower(ob.ansLine) {
+					r.Count("resp-cname-target-mixed-case-" + strings.Fields(ob.real)[0])
+				}
 				if strings.Contains(ob.ansLine, "28/") && ob.real != "none" {
 					r.Count("resp-aaaa-answer-" + strings.Fields(ob.real)[0])
 				}
 				if strings.HasPrefix(ob.real, "mod") {
 					r.Violate("response-rewritten", fmt.Sprintf("response filtering of %s returned a rewrite: %s", ob.ansLine, ob.real), mk(ob.real, "", "no rewrite"))
+				} else if !ob.exp.admits(ob.real) && ob.expCS.admits(ob.real) {
+					// Exactly what taking the CNAME targets in their wire
+					// spelling gives: the defect repaired by the fix commit.
+					want := ob.exp.want()
+					r.Violate("response-cname-target-case", fmt.Sprintf("answers %s of %s/%d: the CNAME target is spelled with upper-case letters; "+
+						"documented precedence (names are case-insensitive) requires %s, the real filter returned %q",
+						ob.ansLine, ob.q.host, ob.q.qt, want, ob.real), mk(ob.real, "", want))
 				} else if !ob.exp.admits(ob.real) {
 					want := ob.exp.want()
 					r.Violate("response-"+ob.exp.clause, fmt.Sprintf("answers %s of %s/%d: documented precedence requires %s, the real filter returned %q",
@@ -1994,6 +2162,38 @@ func runUniverse(o *hlib.Opts, r *hlib.Result, m *hlib.Model, rng *rand.Rand, nC
 				}
 				if mv := normVerdict(answers[i]); !oneOf(mv, ob.real) {
 					r.Disagree("resp-verdict", fmt.Sprintf("%s: real %q model %q", ops[i], ob.real, answers[i]), mk(ob.real, answers[i], ""))
+				}
+			case "dbg":
+				r.Count("mw-debug-query")
+				body, reported, _ := strings.Cut(ob.real, " | ")
+				// The body of a debug answer is held to everything an ordinary
+				// answer is held to.
+				u.oracleMW(r, ob.q, mode, filteringOn, ob.reqV, ob.respV, body, ob.upReply, ob.upName, mk)
+				// What is reported: the request's verdict if there is one,
+				// otherwise the response's; nothing when filtering is off.
+				wantRep := "resp normal -"
+				switch {
+				case !filteringOn:
+				case ob.reqV != "none":
+					wantRep = "req " + verdictState(ob.reqV)
+				default:
+					wantRep = "resp " + verdictState(ob.respV)
+				}
+				r.Count("mw-debug-reported-" + strings.Join(strings.Fields(wantRep)[:2], "-"))
+				if reported != wantRep {
+					r.Violate("debug-reported-verdict", fmt.Sprintf("debug query %s/%d: request verdict %q, response verdict %q, the answer reports %q instead of %q",
+						ob.q.host, ob.q.qt, ob.reqV, ob.respV, reported, wantRep), mk(ob.real, "", wantRep))
+				}
+				mv := modelAlts(answers[i])
+				ok := false
+				for _, a := range mv {
+					mb, mr, _ := strings.Cut(a, " | ")
+					if normMsg1(mb) == normMsg1(body) && mr == reported {
+						ok = true
+					}
+				}
+				if !ok {
+					r.Disagree("mw-debug-response", fmt.Sprintf("%s: real %q model %q", ops[i], ob.real, answers[i]), mk(ob.real, answers[i], ""))
 				}
 			case "mw":
 				u.oracleMW(r, ob.q, mode, filteringOn, ob.reqV, ob.respV, ob.real, ob.upReply, ob.upName, mk)
@@ -2020,7 +2220,9 @@ func (u *universe) oracleMW(r *hlib.Result, q query, mode modeT, filteringOn boo
 	if up != nil {
 		upStr = msgString(up, up)
 	}
-	hasUp := strings.Contains(real, ":u") || !strings.HasSuffix(real, " 0")
+	// Upstream data in any section: marked answer records, authority records
+	// other than the synthesised SOA, additional records.
+	hasUp := strings.Contains(real, ":u") || !strings.HasSuffix(real, " 0 0")
 	if !filteringOn {
 		r.Count("mw-filtering-off")
 		if real != upStr {
@@ -2039,6 +2241,12 @@ func (u *universe) oracleMW(r *hlib.Result, q query, mode modeT, filteringOn boo
 			r.Count("mw-blocked-by-request")
 		} else {
 			r.Count("mw-blocked-by-response")
+		}
+		if up != nil && len(up.Extra) > 0 {
+			r.Count("mw-blocked-upstream-had-additional-records")
+		}
+		if mode.ttl%1000 != 0 {
+			r.Count("mw-blocked-subsecond-ttl")
 		}
 		if hasUp {
 			sig := "blocked-answer-has-upstream-records"
@@ -2073,8 +2281,8 @@ func (u *universe) oracleMW(r *hlib.Result, q query, mode modeT, filteringOn boo
 				mk(real, "", "synthesised only"))
 		}
 		for _, a := range strings.Split(strings.Fields(real)[1], ",") {
-			if a != "-" && !strings.HasSuffix(a, fmt.Sprintf(":%d:s", mode.ttl)) {
-				r.Violate("rewrite-ttl", fmt.Sprintf("query %s/%d rewritten: record %s does not carry the profile TTL %d", q.host, q.qt, a, mode.ttl), mk(real, "", ""))
+			if a != "-" && !strings.HasSuffix(a, fmt.Sprintf(":%d:s", mode.secs())) {
+				r.Violate("rewrite-ttl", fmt.Sprintf("query %s/%d rewritten: record %s does not carry the profile TTL %d", q.host, q.qt, a, mode.secs()), mk(real, "", ""))
 			}
 		}
 	case rk == "modmsg":
@@ -2093,7 +2301,7 @@ func (u *universe) oracleMW(r *hlib.Result, q query, mode modeT, filteringOn boo
 		if upName != target {
 			r.Violate("cname-rewrite-not-resolved", fmt.Sprintf("query %s/%d rewritten to %s but upstream was asked %q", q.host, q.qt, target, upName), mk(real, "", ""))
 		}
-		wantFirst := fmt.Sprintf("5:%s:%s:%d:s", q.host, target, mode.ttl)
+		wantFirst := fmt.Sprintf("5:%s:%s:%d:s", q.host, target, mode.secs())
 		if !strings.HasPrefix(strings.Fields(real)[1], wantFirst) {
 			r.Violate("cname-rewrite-shape", fmt.Sprintf("query %s/%d rewritten to %s: answer %q does not start with %s", q.host, q.qt, target, real, wantFirst), mk(real, "", wantFirst))
 		}
@@ -2124,6 +2332,17 @@ var gridKinds = [][]rule{
 	{{kind: "h4", dom: "a.test", arg: "0.0.0.0"}},
 }
 
+var gridSpellings = []string{"a.test", "A.Test", "A.TEST", "x.a.TEST"}
+var nGridCfg int
+
+// gridAnswers is the answer section the grid's response op filters.
+func gridAnswers(target string) []dns.RR {
+	return []dns.RR{
+		&dns.CNAME{Hdr: dns.RR_Header{Name: "q.example.", Rrtype: dns.TypeCNAME, Class: dns.ClassINET, Ttl: 7777}, Target: dns.Fqdn(target)},
+		&dns.A{Hdr: dns.RR_Header{Name: dns.Fqdn(target), Rrtype: dns.TypeA, Class: dns.ClassINET, Ttl: 7777}, A: net.ParseIP("192.0.2.1").To4()},
+	}
+}
+
 // runGrid enumerates custom kind x first shared list x second shared list x
 // service list x {dangerous domains on/off} x {safe search on/off}; with
 // full=false the second shared list is left out.  Every configuration is asked
@@ -2140,24 +2359,25 @@ func runGrid(r *hlib.Result, m *hlib.Model, rng *rand.Rand, full bool) {
 	u.sb = hashSet{hosts: []string{"a.test"}, repl: "sb-repl.test"}
 	u.ad, u.nr = hashSet{repl: "ad-repl.test"}, hashSet{repl: "t1.test"}
 	u.grp = cfgT{parentalOn: true, rlOn: true, sbOn: true, now: defaultNow}
-	u.gmode = modeT{kind: "null", ttl: 10}
+	u.gmode = modeT{kind: "null", ttl: 10000}
 	clockNow = defaultNow
 	u.build(rng)
 	defer u.close()
 	ulines := u.modelLines()
 	ctx := context.Background()
-	mode := modeT{kind: "nx", ttl: 30}
+	mode := modeT{kind: "nx", ttl: 30999}
 	msgs, err := dnsmsg.NewConstructor(&dnsmsg.ConstructorConfig{Cloner: cloner, BlockingMode: mode.build(),
-		StructuredErrors: agdtest.NewSDEConfig(true), FilteredResponseTTL: time.Duration(mode.ttl) * time.Second, EDEEnabled: true})
+		StructuredErrors: agdtest.NewSDEConfig(true), FilteredResponseTTL: mode.dur(), EDEEnabled: true})
 	hlib.Must(err)
 	remote := netip.MustParseAddr("10.8.0.1")
 	qs := []query{{host: "a.test", qt: 1, wire: "a.test"}, {host: "x.a.test", qt: 28, wire: "x.a.test"}, {host: "a.test", qt: 16, wire: "a.test"}}
 
 	type pending struct {
-		c      cfgT
-		clines []string
-		ops    []string
-		real   []string
+		c        cfgT
+		clines   []string
+		ops      []string
+		real     []string
+		spelling string
 	}
 	var batch []pending
 	flush := func() {
@@ -2177,10 +2397,31 @@ func runGrid(r *hlib.Result, m *hlib.Model, rng *rand.Rand, full bool) {
 			at += len(p.clines)
 			nontrivial := false
 			for i, op := range p.ops {
-				q := qs[i]
 				mk := func(real, model, exp string) replay {
 					return replay{Universe: ulines, Config: p.clines, Op: op, Real: real, Model: model, Expected: exp, Lists: u.listTexts(p.c)}
 				}
+				if i >= len(qs) {
+					// The response op: a CNAME to a.test in some spelling,
+					// then an address.
+					exp := u.expectResp(p.c.effective(u), gridAnswers(p.spelling), true)
+					r.Count("grid-clause-" + exp.clause)
+					if p.real[i] != "none" {
+						nontrivial = true
+					}
+					if !exp.admits(p.real[i]) {
+						sig := "response-" + exp.clause
+						if u.expectResp(p.c.effective(u), gridAnswers(p.spelling), false).admits(p.real[i]) {
+							sig = "response-cname-target-case"
+						}
+						r.Violate(sig, fmt.Sprintf("grid, %s: documented precedence requires %s, the real filter returned %q", op, exp.want(), p.real[i]),
+							mk(p.real[i], "", exp.want()))
+					}
+					if mv := normVerdict(answers[at+i]); !oneOf(mv, p.real[i]) {
+						r.Disagree("resp-verdict", fmt.Sprintf("grid %s: real %q model %q", op, p.real[i], answers[at+i]), mk(p.real[i], answers[at+i], ""))
+					}
+					continue
+				}
+				q := qs[i]
 				exp := u.expectReq(p.c.effective(u), mode, q.host, q.qt)
 				r.Count("grid-clause-" + exp.clause)
 				if p.real[i] != "none" {
@@ -2236,6 +2477,18 @@ func runGrid(r *hlib.Result, m *hlib.Model, rng *rand.Rand, full bool) {
 							p.ops = append(p.ops, fmt.Sprintf("req p %s %d", q.wire, q.qt))
 							p.real = append(p.real, v)
 						}
+						// Response filtering of "CNAME a.test, A 192.0.2.1" with
+						// the target spelled in lower, mixed or upper case.
+						p.spelling = gridSpellings[nGridCfg%len(gridSpellings)]
+						nGridCfg++
+						gans := gridAnswers(p.spelling)
+						pres, perr := flt.FilterResponse(ctx, &filter.Response{DNS: &dns.Msg{Answer: gans}, RemoteIP: remote})
+						pv := verdictString(pres)
+						if perr != nil {
+							pv = "error " + perr.Error()
+						}
+						p.ops = append(p.ops, "resp p "+ansTok(gans[0])+","+ansTok(gans[1]))
+						p.real = append(p.real, pv)
 						batch = append(batch, p)
 						if len(batch) >= 400 {
 							flush()
@@ -2343,7 +2596,7 @@ func main() {
 	rng := o.Rand("universes")
 	nU, nCfg, nQ := 220, 8, 18
 	if o.Thorough() {
-		nU, nCfg, nQ = 2500, 10, 24
+		nU, nCfg, nQ = 4500, 10, 24
 	}
 	for i := 0; i < nU; i++ {
 		runUniverse(o, r, m, rng, nCfg, nQ)
